@@ -7,6 +7,7 @@ from typing import Any, Dict, List, Optional, Tuple
 
 from .. import symt
 from ..core import Ctx
+from ..index import AnalysisError
 from ..ring import Rat, reset_relations
 from ..symt import InterpError, STensor, Unsupported, to_rat
 from ..tae import STObj
@@ -17,8 +18,21 @@ from .t11_expv import identity_coords
 AXES = ["GRID", "CUBE", "CUBE_CORNERS", "WORLD"]
 
 
+def ref_vmap(it, g, a: str, to: str) -> STensor:
+    """Reference: linear part of the a -> to point map of grid g, written out from the documented conventions and the grid's
+    reported size(), spacing() and direction() (index i <-> cube (2i+1)/n - 1 <-> cube-corners 2i/(n-1) - 1 <-> o + R diag(s) i)."""
+    n = [int(x) for x in it.method(g, "size")]
+    D = len(n)
+    RS = symt.matmul(it.method(g, "direction"), symt.diag(it.method(g, "spacing")))
+    to_grid = {"GRID": symt.eye(D), "CUBE": symt.diag(STensor.from_flat([Fraction(k, 2) for k in n], [D])),
+               "CUBE_CORNERS": symt.diag(STensor.from_flat([Fraction(k - 1, 2) for k in n], [D])), "WORLD": symt.inverse(RS)}
+    from_grid = {"GRID": symt.eye(D), "CUBE": symt.diag(STensor.from_flat([Fraction(2, k) for k in n], [D])),
+                 "CUBE_CORNERS": symt.diag(STensor.from_flat([Fraction(2, k - 1) for k in n], [D])), "WORLD": RS}
+    return symt.matmul(from_grid[to], to_grid[a])
+
+
 class FEnv:
-    def __init__(self, ctx: Ctx, D: int, axes: str, N: int = 2, rotate: bool = True):
+    def __init__(self, ctx: Ctx, D: int, axes: str, N: int = 2, rotate: bool = True, fractional: bool = False):
         reset_relations()
         self.ctx = ctx
         self.facts = fresh_facts()
@@ -38,6 +52,16 @@ class FEnv:
             for x in s:
                 self.facts.declare_positive(x)
             R = rotation(D, f"g{b}") if rotate else symt.eye(D)
+            if fractional:
+                # a pyramid level of an odd-sized grid: downsample() of size 2n-1 keeps the internal float size n - 1/2, size() = n
+                g0 = it.new(self.Grid, size=tuple(2 * n - 1 for n in self.size), spacing=STensor.from_flat(s, [D]),
+                            center=STensor.from_flat(c, [D]), direction=R, align_corners=(b % 2 == 0))
+                g = it.method(g0, "downsample")
+                if tuple(int(x) for x in it.method(g, "size")) != tuple(self.size) or \
+                        all(to_rat(x).equals(to_rat(y)) for x, y in zip(g.attrs["_size"].flat(), self.size)):
+                    raise AnalysisError("fractional-size scenario: downsample() of odd sizes no longer keeps a non-integral internal size")
+                self.grids.append(g)
+                continue
             self.grids.append(it.new(self.Grid, size=self.size, spacing=STensor.from_flat(s, [D]), center=STensor.from_flat(c, [D]),
                                      direction=R, align_corners=(b % 2 == 0)))
         self.data = STensor.symbols("U", [N, D] + list(self.shape))
@@ -46,8 +70,7 @@ class FEnv:
         self.flow = it.new(self.FF, self.data.clone(), tuple(self.grids), self.ax[axes])
 
     def vmap(self, b: int, a: str, to: str) -> STensor:
-        """Reference: linear part of grid b's own point map a -> to (checked against the documented convention in C01)."""
-        return as_h(self.it.method(self.grids[b], "transform", self.ax[a], self.ax[to]))[:, :self.D]
+        return ref_vmap(self.it, self.grids[b], a, to)
 
     def convert(self, data: STensor, a: str, to: str) -> STensor:
         out = []
@@ -72,12 +95,10 @@ def run_flow(ctx: Ctx) -> None:
                          "with the caller's scale/steps, and the result is converted back to the original representation")
     ctx.rule("T10x.warp", "FlowFields.warp_image(): torch.grid_sample receives per item the grid's own identity coordinates (convention a) plus the "
                           "vectors converted to that cube convention, with align_corners = a; the result carries the flow's grids")
-    ctx.rule("T10x.sample", "FlowFields.sample(grid): the resampled vectors are re-expressed from the old grid's to the new grid's units iff the "
-                            "representation is not WORLD (old grid -> world -> new grid roles)")
     for D in (2, 3):
-        for a in AXES:
-            def th_axes(D=D, a=a):
-                env = FEnv(ctx, D, a)
+        for a, frac in [(x, False) for x in AXES] + [(x, True) for x in AXES]:
+            def th_axes(D=D, a=a, frac=frac):
+                env = FEnv(ctx, D, a, fractional=frac)
                 it = env.it
                 for b in AXES:
                     r = it.method(env.flow, "axes", env.ax[b])
@@ -103,7 +124,10 @@ def run_flow(ctx: Ctx) -> None:
                 if not teq(r1.plain(), env.convert(env.data, a, "WORLD")[1]):
                     return False, "FlowField.axes differs from FlowFields.axes for the same item"
                 return True, ""
-            _guard(ctx, "T10x.axes", f"D={D}:{a}", FFm["axes"], f"D={D} from={a}", th_axes)
+            _guard(ctx, "T10x.axes", f"D={D}:{a}" + (":fractional-size" if frac else ""), FFm["axes"],
+                   f"D={D} from={a}" + (" fractional-size" if frac else ""), th_axes)
+            if frac:
+                continue
 
             def th_exp(D=D, a=a):
                 env = FEnv(ctx, D, a)
@@ -161,14 +185,24 @@ def run_flow(ctx: Ctx) -> None:
                     return False, "warped image does not carry the flow's grids"
                 return True, ""
             _guard(ctx, "T10x.warp", f"D={D}:{a}", FFm["warp_image"], f"D={D} axes={a}", th_warp)
+    run_flow_sample(ctx)
 
-        for a, same_domain in [(x, False) for x in AXES] + [(x, True) for x in AXES]:
+
+def run_flow_sample(ctx: Ctx) -> None:
+    """FlowFields.sample(grid): vectors are re-expressed in the units of the new grid (used by C10 and, as the flow part of lock-step, C04)."""
+    prog = ctx.prog
+    FFm = {"sample": prog.func("deepali.data.flow", "FlowFields.sample")}
+    ctx.fn(FFm["sample"])
+    ctx.rule("T10x.sample", "FlowFields.sample(grid): the resampled vectors are re-expressed from the old grid's to the new grid's units iff the "
+                            "representation is not WORLD (old grid -> world -> new grid roles)")
+    for D in (2, 3):
+        for a, same_domain in [(x, False) for x in AXES] + [(x, True) for x in AXES] + [(x, "fractional-size") for x in AXES]:
             def th_sample(D=D, a=a, same_domain=same_domain):
-                env = FEnv(ctx, D, a, rotate=False)
+                env = FEnv(ctx, D, a, rotate=False, fractional=(same_domain == "fractional-size"))
                 it = env.it
                 news = []
                 for b in range(env.N):
-                    if same_domain:
+                    if same_domain is True:
                         # same cube, other size (e.g. a pyramid level): the vectors still have to be re-expressed
                         news.append(it.method(env.grids[b], "resize", tuple(2 * n - 1 for n in env.size)))
                         continue
@@ -190,8 +224,7 @@ def run_flow(ctx: Ctx) -> None:
                     if a == "WORLD":
                         want = raw[b]
                     else:
-                        M = symt.matmul(as_h(it.method(news[b], "transform", env.ax["WORLD"], env.ax[a]))[:, :D],
-                                        as_h(it.method(env.grids[b], "transform", env.ax[a], env.ax["WORLD"]))[:, :D])
+                        M = symt.matmul(ref_vmap(it, news[b], "WORLD", a), ref_vmap(it, env.grids[b], a, "WORLD"))
                         v = raw[b].permute(list(range(1, D + 1)) + [0]).unsqueeze(-1)
                         want = symt.matmul(M, v).squeeze(-1).permute([D] + list(range(D)))
                     if not teq(out.plain()[b], want):
